@@ -145,6 +145,20 @@ impl Disk {
         out
     }
 
+    /// Direct children of a directory: (name, is_dir, inode), in name order.
+    pub fn children(&self, dir: &str) -> Vec<(String, bool, u64)> {
+        let prefix = if dir == "/" { "/".to_string() } else { format!("{}/", dir) };
+        let mut out = vec![];
+        for (p, ino) in &self.names {
+            if let Some(rest) = p.strip_prefix(&prefix) {
+                if !rest.is_empty() && !rest.contains('/') {
+                    out.push((rest.to_string(), self.inodes[ino].is_dir, *ino));
+                }
+            }
+        }
+        out
+    }
+
     pub fn put_file(&mut self, path: &str, data: &[u8]) {
         // Test/bootstrap helper: mkdir -p parent, then create/replace the file.
         let parent = parent_of(path).to_string();
@@ -470,6 +484,13 @@ impl SimFs {
 
     pub fn is_fake_fd(&self, fd: i32) -> bool {
         fd >= FAKE_FD_BASE
+    }
+
+    /// Path of the directory (or file) an open descriptor refers to.
+    pub fn path_of_fd(&self, fd: i32) -> R<String> {
+        let ofd = self.ofd_of(fd)?;
+        let ino = self.ofds[&ofd].ino;
+        self.disk.names.iter().find(|(_, i)| **i == ino).map(|(p, _)| p.clone()).ok_or(libc::ENOENT)
     }
 
     fn ofd_of(&self, fd: i32) -> R<u64> {
